@@ -15,8 +15,10 @@ import (
 	onewaytest "github.com/relab/gorums/tests/oneway"
 	"google.golang.org/grpc"
 	"google.golang.org/grpc/backoff"
+	"google.golang.org/grpc/codes"
 	"google.golang.org/grpc/credentials/insecure"
 	"google.golang.org/grpc/metadata"
+	"google.golang.org/grpc/status"
 	"google.golang.org/protobuf/proto"
 
 	"verif/puppet"
@@ -49,6 +51,10 @@ type MgrOpts struct {
 	// MaxSendBytes > 0 limits the size of a message the client may send (grpc.MaxCallSendMsgSize):
 	// larger requests fail in SendMsg although the stream stays healthy.
 	MaxSendBytes int `json:"max_send_bytes,omitempty"`
+	// FailSendAt: ordinals (1-based, counted over all node streams of the client) of stream writes
+	// that fail without writing anything - a transient send failure under a call whose context
+	// is alive (injected by a client stream interceptor; the connection itself stays usable).
+	FailSendAt []int `json:"fail_send_at,omitempty"`
 }
 
 // QStep is one row of a quorum-function table.
@@ -146,6 +152,9 @@ type Client struct {
 
 	unionOnce sync.Once
 	union     *puppet.Configuration
+
+	sends       int64 // stream writes seen by the FailSendAt interceptor
+	SendsFailed int32 // ... of which it failed
 }
 
 // IsStream etc. classify puppet methods.
@@ -215,6 +224,9 @@ func newClientOnce(cl *Cluster, o MgrOpts) (*Client, error) {
 	}
 	if o.MaxSendBytes > 0 {
 		dial = append(dial, grpc.WithDefaultCallOptions(grpc.MaxCallSendMsgSize(o.MaxSendBytes)))
+	}
+	if len(o.FailSendAt) > 0 {
+		dial = append(dial, grpc.WithChainStreamInterceptor(c.failSends))
 	}
 	dt := o.DialTimeoutMs
 	if dt == 0 {
@@ -306,6 +318,31 @@ func newClientOnce(cl *Cluster, o MgrOpts) (*Client, error) {
 		}
 	}
 	return c, nil
+}
+
+// failSends is the client stream interceptor behind MgrOpts.FailSendAt.
+func (c *Client) failSends(ctx context.Context, desc *grpc.StreamDesc, cc *grpc.ClientConn, method string, streamer grpc.Streamer, opts ...grpc.CallOption) (grpc.ClientStream, error) {
+	cs, err := streamer(ctx, desc, cc, method, opts...)
+	if err != nil {
+		return cs, err
+	}
+	return &faultyStream{ClientStream: cs, c: c}, nil
+}
+
+type faultyStream struct {
+	grpc.ClientStream
+	c *Client
+}
+
+func (s *faultyStream) SendMsg(m any) error {
+	n := int(atomic.AddInt64(&s.c.sends, 1))
+	for _, k := range s.c.Opts.FailSendAt {
+		if k == n {
+			atomic.AddInt32(&s.c.SendsFailed, 1)
+			return status.Error(codes.Unavailable, "verif: injected send failure")
+		}
+	}
+	return s.ClientStream.SendMsg(m)
 }
 
 // AddConfig creates a configuration over the given servers and returns its index.
